@@ -1016,6 +1016,20 @@ func (ev *Eval) call(e ECall) TV {
 		return TV{T: sSel(ev.ex.get(ev.state(), key, "(Array Int "+srt+")"), i.T), Ty: w.Ty}
 	case "logf":
 		return TV{T: sSel(ev.ex.get(ev.state(), "LOGF", "(Array Int Int)"), arg(0).T), Ty: vtInt}
+	case "closed":
+		// closed(ch): the channel has been closed
+		return TV{T: sSel(ev.ex.get(ev.state(), chClosed, aIntBool), arg(0).T), Ty: vtBool}
+	case "recvn":
+		// recvn(ch): number of values received from ch so far
+		return TV{T: sSel(ev.ex.get(ev.state(), chRecvN, aIntInt), arg(0).T), Ty: vtInt}
+	case "streamn":
+		// streamn(ch): number of values the registered producer of ch sends before closing it
+		return TV{T: sSel(ev.ex.get(ev.state(), chSN, aIntInt), arg(0).T), Ty: vtInt}
+	case "streamv":
+		// streamv(ch, q, witness): q-th value of the registered producer of ch (element type from the witness)
+		w := arg(2)
+		k, srt := chSV(ev.vc().vtSort(w.Ty))
+		return TV{T: sSel(sSel(ev.ex.get(ev.state(), k, srt), arg(0).T), arg(1).T), Ty: w.Ty}
 	case "logr0", "logr1":
 		// k-th result of the logged call at index i (impure call-log mode); type from a witness expression
 		i := arg(0)
@@ -1184,6 +1198,24 @@ func (ev *Eval) modTargets(loc string) []modTarget {
 			a := ev.rval(ev.eval(e))
 			return []modTarget{{key: "GF:" + pd.Name, sort: "(Array Int " + ev.vc().vtSort(rt) + ")", idx: a.T}}
 		}
+	}
+	if strings.HasPrefix(loc, "closed(") && strings.HasSuffix(loc, ")") {
+		e, err := parseExpr(loc[7 : len(loc)-1])
+		if err != nil {
+			ev.errorf("modifies %s: %v", loc, err)
+			return nil
+		}
+		a := ev.rval(ev.eval(e))
+		return []modTarget{{key: chClosed, sort: aIntBool, idx: a.T}}
+	}
+	if strings.HasPrefix(loc, "recvn(") && strings.HasSuffix(loc, ")") {
+		e, err := parseExpr(loc[6 : len(loc)-1])
+		if err != nil {
+			ev.errorf("modifies %s: %v", loc, err)
+			return nil
+		}
+		a := ev.rval(ev.eval(e))
+		return []modTarget{{key: chRecvN, sort: aIntInt, idx: a.T}}
 	}
 	if strings.HasPrefix(loc, "ghost ") {
 		name := strings.TrimSpace(loc[6:])
